@@ -23,6 +23,9 @@ GLOBALS = ["collections.OrderedDict", "collections.Counter", "collections.deque"
 ADD = {"0": None, "1": ["fractions.Fraction"], "2": ["collections.Counter"],
        "3": ["fractions.Fraction", "collections.Counter", "decimal.Decimal"]}
 BASE0 = copy.deepcopy(ml.ML_ALLOWLIST)
+# callers commonly keep ONE list of extra imports and edit it in place between uses: the same list object is passed
+# to every activation (and another one to every directly constructed unpickler), with its contents replaced each time
+ACT_LIST, CON_LIST = [], []
 
 
 def pk(g):
@@ -61,12 +64,19 @@ def replay(hist):
             a = ADD[op[-1]]
             if a is None:
                 fickling.activate_safe_ml_environment()
+            elif len(steps) % 2:
+                ACT_LIST[:] = a
+                fickling.activate_safe_ml_environment(also_allow=ACT_LIST)
             else:
                 fickling.activate_safe_ml_environment(also_allow=list(a))
             active = True
         else:
             a = ADD[op[-1]]
-            inst = (lambda data, a=a: ml.FicklingMLUnpickler(io.BytesIO(data), also_allow=list(a) if a else None))
+            if a and len(steps) % 2 == 0:
+                CON_LIST[:] = a
+                inst = (lambda data: ml.FicklingMLUnpickler(io.BytesIO(data), also_allow=CON_LIST))
+            else:
+                inst = (lambda data, a=a: ml.FicklingMLUnpickler(io.BytesIO(data), also_allow=list(a) if a else None))
             inst(b"N.")       # constructing is the step
         st = {"op": op}
         # through the entry points of the pickle module (alternating which one)
